@@ -132,6 +132,9 @@ def state_cases(seed, count, max_side, tag, extra="none"):
         n = gen.grid_size(g)
         z2 = gen.rand_field(rng, g)
         seqs = rng.sample(ALL_FINAL_SEQS, 6)
+        big_units = extra == "acc" and g["t"] == "raster" and rng.random() < 0.5
+        if big_units:
+            g["sc"] = -6
         if rng.random() < 0.2:
             # plateau-and-cliff relief under very large slope exponents: receivers with zero weight
             z = gen.rand_field(rng, g, "cliff")
@@ -151,6 +154,13 @@ def state_cases(seed, count, max_side, tag, extra="none"):
                 else:
                     srcs = [[rng.randint(0, 3) for _ in range(n)], [1] * n]
                 ex = [dict(op="acc", g=k, src=s, K=0 if single else 12) for s in srcs]
+                if big_units:
+                    # the same kind of source in other units: finite values near the top of the range on cells
+                    # far smaller than one (the sum of the bare source over a catchment is not representable,
+                    # the accumulated value is); and the opposite corner of the range
+                    ex.append(dict(op="acc", g=k, src=[rng.randint(1, 5) for _ in range(n)], K=0 if single else 12, E=1020))
+                    ex.append(dict(op="acc", g=k, src=[rng.randint(-5, 5) for _ in range(n)], K=0 if single else 12, E=1018))
+                    ex.append(dict(op="acc", g=k, src=[rng.randint(0, 5) for _ in range(n)], K=0 if single else 12, E=-1000))
             steps += steps_for_graph(k, ops, mask, bl, z, ex)
             # second update of the same object with another field, then the same calls again
             steps.append(dict(op="update", g=k, z=z2))
